@@ -1,9 +1,12 @@
 \* C17 token / character level: checks Layer M against Layer P on every string AND prints the cases
 CONSTANTS
-  Mode = "@MODE@"
-  MaxLen = @MAXLEN@
-  MaxDev = @MAXDEV@
+  Modes = {@MODES@}
+  MaxRaw = @MAXRAW@
+  MaxGuided = @MAXGUIDED@
+  MaxDev = 1
+  MaxPlain = @MAXPLAIN@
+  MaxChars = @MAXCHARS@
 INIT Init
 NEXT Next
-INVARIANTS MSatisfiesP Emit
+INVARIANTS @INV@ Emit
 CHECK_DEADLOCK FALSE
